@@ -79,6 +79,8 @@ class TracedRace:
 
         self.w.sim.send_hook = hook
         self.w.block_hook = self._on_block
+        self.unprojectable = None
+        self.aborted = False
         self.blocked = None  # name of a worker whose actor thread is blocked for good
         self.blocking_waits = 0
         # preemption point inside Worker.receiveMsg_WakeupMessage: after send_samples() the executor thread may run before the
@@ -298,7 +300,9 @@ class TracedRace:
     def _proj_msg(self, m):
         nm = type(m).__name__
         if nm == "JoinPointReached":
-            return _msg(nm, w=m.worker_id + 1, e=m.task[0].task.id)
+            # (a join-point message that names no join point - possible with a changed implementation - projects to e = -1)
+            jp = m.task[0].task if m.task and hasattr(m.task[0], "task") else None
+            return _msg(nm, w=m.worker_id + 1, e=getattr(jp, "id", -1) if jp is not None else -1)
         if nm == "UpdateSamples":
             return _msg(nm, w=m.client_id + 1, ids=[self.sample_id(s) for s in m.samples])
         return _msg(nm)
@@ -386,6 +390,17 @@ class TracedRace:
     def do(self, dec, service_time=None, preempt=None):
         try:
             return self._do(dec, service_time, preempt)
+        except tlc.MachineryError:
+            raise
+        except (IndexError, KeyError, AttributeError, TypeError, ValueError) as ex:
+            # the implementation reached a state the harness cannot project onto the model's variables (changed implementation):
+            # the race is not continued; what was recorded so far is still validated, the rest is reported as drift
+            import traceback
+
+            self.unprojectable = "%s: %s @ %s" % (type(ex).__name__, ex, traceback.format_exc().strip().splitlines()[-3].strip()[:120])
+            self._in_wakeup = None
+            self.aborted = True
+            return "Skip", 0
         except racesim.HandlerBlocked:
             # the actor thread of a worker is blocked for good (it waits for an executor that never ends): the race hangs
             self._in_wakeup = None
@@ -583,7 +598,7 @@ class TracedRace:
         pending = [tuple(x) for x in script]
         while pending:
             want = pending.pop(0)
-            if self.done() or self.hang or len(self.events) >= max_events:
+            if self.done() or self.hang or self.aborted or len(self.events) >= max_events:
                 break
             if want[0] == "WWakeupB":
                 continue  # consumed together with its WWakeupA
@@ -615,7 +630,7 @@ class TracedRace:
         n_random = 0
         unchanged = 0
         sig = self.control_signature()
-        while not self.done() and not self.hang and len(self.events) < max_events and n_random < max_events // 2 and unchanged < 25:
+        while not self.done() and not self.hang and not self.aborted and len(self.events) < max_events and n_random < max_events // 2 and unchanged < 25:
             en = self.enabled()
             if not en:
                 break
@@ -631,7 +646,7 @@ class TracedRace:
         # deterministic round-robin sweeps; a hang is diagnosed when full sweeps no longer change the control state
         same = 0
         sig = self.control_signature()
-        while not self.done() and not self.hang:
+        while not self.done() and not self.hang and not self.aborted:
             en = self.w.enabled()
             if not en:
                 break
@@ -640,7 +655,7 @@ class TracedRace:
                 # any number of sample shipments), and takes every other enabled decision once
                 n = len(self.w.sim.chan.get((dec[1], dec[2]), ())) if dec[0] == "deliver" else 1
                 for _ in range(max(n, 1)):
-                    if dec in self.w.enabled() and not self.done() and not self.hang:
+                    if dec in self.w.enabled() and not self.done() and not self.hang and not self.aborted:
                         self.do(dec)
             nsig = self.control_signature()
             same = same + 1 if nsig == sig else 0
